@@ -41,6 +41,7 @@ func runC11(c *core.Ctx) {
 	c.Rule("R7", "ReplicationSet.Do: per-goroutine delay timers", 1)
 	c.Rule("R8", "DoUntilQuorum and DoMultiUntilQuorum… delegate to the analysed functions with arguments, configuration and results untouched", 4)
 	c.Rule("R10", "multi-set read: every worker reads its set, failures recorded once, successes appended in full, answer after Wait", 3)
+	c.Rule("R11", "the configuration check refuses exactly a negative hedging delay (no other configuration makes a read fail before any call)", 1)
 	c.Rule("R9", "result trackers: success / failure / inclusion predicates and thresholds; what done() releases", 10)
 	pkg := c.Prog.Pkg("ring")
 	fn := an.FindFunc(pkg, "DoUntilQuorumWithoutSuccessfulContextCancellation")
@@ -791,6 +792,39 @@ func c11Entry(c *core.Ctx) {
 // the first failure of a zone — and only the first — releases another zone.
 func c11Done(c *core.Ctx) {
 	pkg := c.Prog.Pkg("ring")
+	if f := an.FindFunc(pkg, "DoUntilQuorumConfig.Validate"); f != nil {
+		c.Analysed(f.String())
+		g := f.Graph()
+		var okRet, errRet []*ast.ReturnStmt
+		for _, b := range g.Blocks {
+			if r := an.ReturnOf(b); r != nil && len(r.Results) == 1 {
+				if f.Canon(r.Results[0]) == "nil" {
+					okRet = append(okRet, r)
+				} else {
+					errRet = append(errRet, r)
+				}
+			}
+		}
+		if len(okRet) != 1 || len(errRet) == 0 {
+			c.Undec("R11", "func=DoUntilQuorumConfig.Validate", f.Pos(), "expected one accepting return and at least one refusing return")
+		} else {
+			t := an.Table{G: g, From: g.EntryLoc(), FreeUnknown: true, Atoms: []an.Atom{{Name: "delay", Values: []string{"lt", "eq", "gt"}}},
+				Binder: &an.Binder{Fn: f, Cmp: map[string]string{"recv.HedgingDelay|0": "delay"}}, Targets: targetsOf(g, okRet[0], errRet), Names: []string{"accept", "refuse"},
+				Want: func(r an.Row, i int) an.Tri {
+					if i == 0 {
+						return an.FromBool(r["delay"] != "lt")
+					}
+					if r["delay"] != "lt" {
+						return an.F
+					}
+					return an.U
+				}}
+			res := t.Run()
+			c.Check(res.OK(), "R11", "func=DoUntilQuorumConfig.Validate", f.Pos(), "a configuration is refused ⇔ its hedging delay is negative, whatever else it says: "+res.Summary(), res.Rows)
+		}
+	} else {
+		c.Miss("R11", "func=DoUntilQuorumConfig.Validate", "not found")
+	}
 	if f := an.FindFunc(pkg, "defaultResultTracker.done"); f != nil {
 		c.Analysed(f.String())
 		g := f.Graph()
